@@ -1085,8 +1085,11 @@ func exprString(e ast.Expr) string {
 }
 
 func (f *Frame) compositeLit(st *State, e *ast.CompositeLit) *Term {
+	return f.compositeLitAs(st, e, f.typeOf(e))
+}
+
+func (f *Frame) compositeLitAs(st *State, e *ast.CompositeLit, t types.Type) *Term {
 	c := f.c
-	t := f.typeOf(e)
 	switch u := types.Unalias(t).Underlying().(type) {
 	case *types.Struct:
 		si := c.structInfo(t)
@@ -1162,7 +1165,7 @@ func (f *Frame) elemExpr(st *State, e ast.Expr, want types.Type) *Term {
 	if cl, ok := e.(*ast.CompositeLit); ok && cl.Type == nil {
 		// elided type: if want is pointer, it's &T{...}
 		if el, isPtr := deref(want); isPtr {
-			v := f.compositeLit(st, cl)
+			v := f.compositeLitAs(st, cl, el)
 			r := f.alloc(st)
 			f.store(st, f.ptrLoc(r, el), v)
 			return r
